@@ -479,7 +479,7 @@ def realpoll_case(rng):
 
 # ----------------------------------------------------------------------------------------
 CLAUSES = ['multicomm_atomic', 'delays_honoured', 'stale_discarded', 'reply_pairing', 'fails_within_timeout',
-           'state_visible', 'state_not_overwritten', 'reconnect_rate_limited', 'callbacks_once', 'polling_resumes']
+           'state_visible', 'state_not_overwritten', 'reconnect_rate_limited', 'attempts_atomic', 'callbacks_once', 'polling_resumes']
 
 
 def canon_events(events):
